@@ -162,7 +162,7 @@ def gen_faults(t, shape, max_entries=4, allow_ancestors=True, max_count=3, concu
         kind = ("soft", "stop", "stop")[t.draw(3, "fault.kind")] if not concurrent else "stop"
         cnt = 1 + t.draw(max_count, "fault.count")
         if phase == "transfer" and len(g[job]) > 1 and t.draw(2, "fault.all.inputs"):
-            cnt = len(g[job])  # every input transfer of the job fails in the same attempt
+            cnt = min(len(g[job]), 3 + t.draw(2, "fault.all.inputs.n"))  # (almost) every input transfer of the job fails in the same attempt
         lose = []
         if kind == "stop" and allow_ancestors and phase != "schedule":
             anc = sorted(ancestors(g, job))
